@@ -10,7 +10,7 @@ from ..dsl import (Cfg, Spec, Sym, X, U, Pg, Vg, t, T, t0, nl1, nl2, at_tf, inte
 from ..extract import quiet
 from ..instance import Inst
 from ..match import Checker, close
-from ..sx2smt import emb, RZ
+from ..sx2smt import emb, RZ, HarnessError
 from ..ref.shooting import step, leaf_at
 from ..ref import collocation as rco
 from .common import describe_violation, result
@@ -86,7 +86,7 @@ def instances(tier, seed):
     n = 0
     cfgs = [('MS', 'rk', 0, ''), ('SS', 'rk', 0, ''), ('MS', 'expl_euler', 0, ''), ('SS', 'expl_euler', 0, ''),
             ('DC', None, 1, 'radau'), ('DC', None, 2, 'radau'), ('DC', None, 3, 'radau'), ('DC', None, 2, 'legendre'), ('DC', None, 4, 'radau'), ('DC', None, 1, 'legendre')]
-    reps = 1 if tier == 'quick' else 3
+    reps = 1 if tier == 'quick' else 6
     for rep in range(reps):
         for method, intg, degree, scheme in cfgs:
             N = [2, 3][n % 2] if tier == 'quick' else rng.choice([1, 2, 3])
@@ -132,9 +132,21 @@ def run(item):
         real_low = rstage.low
         try:
             for i in steps:
-                rstage.low = (lambda grid_, t_, i=i: (i // M) if grid_.numel() == N + 1 else i)
-                if N + 1 == nsteps + 1:
-                    rstage.low = (lambda grid_, t_, i=i: i)
+                def low_stub(grid_, t_, i=i):
+                    # casadi.low(v, t): index j with v[j] <= t < v[j+1], clamped to [0, len(v)-2].  Under the path condition
+                    # "t lies in integrator step i" this is decided here for the control grid, the integrator grid and
+                    # any leading part of the integrator grid; the clamping is reproduced faithfully
+                    n_ = grid_.numel()
+                    if n_ == N + 1 and M > 1:
+                        j = i // M
+                    elif n_ == N + 1 and M == 1:
+                        j = i
+                    elif n_ <= N * M + 1:
+                        j = i
+                    else:
+                        raise HarnessError('low() called on an unexpected grid of %d entries' % n_)
+                    return max(0, min(j, n_ - 2))
+                rstage.low = low_stub
                 F = st.sampler('s%d' % i, [st.x])
                 h_i = (ti_[i + 1] - ti_[i])
                 vals = [F(st.gist, ti_[i] + h_i * j / r) for j in range(d + 1)]
